@@ -82,6 +82,7 @@ class ExcelParserTokens(object):
     TOK_SUBTYPE_ERROR = "error"
     TOK_SUBTYPE_RANGE = "range"
     TOK_SUBTYPE_MATH = "math"
+    TOK_SUBTYPE_PERCENT = "percent"
     TOK_SUBTYPE_CONCAT = "concatenate"
     TOK_SUBTYPE_INTERSECT = "intersect"
     TOK_SUBTYPE_UNION = "union"
@@ -478,11 +479,22 @@ class ExcelParser(ExcelParserTokens):
 
             # standard postfix operators
             if ("%".find(currentChar()) != -1):
-                if (len(token) > 0):
-                    tokens.add(float(token) / 100, self.TOK_TYPE_OPERAND)
+                try:
+                    percentage = float(token) / 100
+                except ValueError:
+                    percentage = None
+                if percentage is not None:
+                    tokens.add(percentage, self.TOK_TYPE_OPERAND)
                     token = ""
                 else:
-                    tokens.add('*', self.TOK_TYPE_OP_IN)
+                    # Not a number (a reference, a name, a closing
+                    # parenthesis, ...): multiply whatever precedes by 0.01,
+                    # binding as tightly as "%" does.
+                    if (len(token) > 0):
+                        tokens.add(token, self.TOK_TYPE_OPERAND)
+                        token = ""
+                    tokens.add(
+                        '*', self.TOK_TYPE_OP_IN, self.TOK_SUBTYPE_PERCENT)
                     tokens.add(0.01, self.TOK_TYPE_OPERAND)
                 # tokens.add(currentChar(), self.TOK_TYPE_OP_POST)
                 offset += 1
